@@ -20,7 +20,7 @@ OUTSIDE = ['CPython\'s float formatting (turning (x, width, precision) into digi
            '(value id, width.precision)', 'integers with more than 16 digits as symbolic values (1e300 is covered concretely)']
 ASSUMPTIONS = ['numpy scalar __format__/__abs__/__round__ behave like Python floats/ints for the element types used']
 EXPLORER_DEFAULTS = {'quick': dict(prove_timeout_ms=20000, time_budget_s=600, max_paths=600, max_decisions=200),
-                     'thorough': dict(prove_timeout_ms=60000, time_budget_s=3000, max_paths=4000, max_decisions=400)}
+                     'thorough': dict(prove_timeout_ms=60000, time_budget_s=1200, max_paths=4000, max_decisions=400)}
 
 NUM = re.compile(r'[-+]?(?:\d+\.\d*|\.\d+|\d+|nan|inf)(?:[eE][-+]?\d+)?')
 
